@@ -6,6 +6,6 @@ CONSTANTS
   Modes = {"E"}
   EmitCases = FALSE
   PeekBudget = 0
-INVARIANTS Inv_Ctx Inv_End Inv_Conform
+INVARIANTS Inv_Ctx Inv_End Inv_Conform Inv_Text
 PROPERTIES Prop_Disc
 CHECK_DEADLOCK FALSE
